@@ -3,6 +3,7 @@ package rules
 import (
 	"fmt"
 	"go/token"
+	"go/types"
 	"strings"
 
 	"golang.org/x/tools/go/ssa"
@@ -241,7 +242,15 @@ func c02Delta(c *Ctx) {
 		var oldAlloc ssa.Value
 		for _, call := range an.Calls(fn) {
 			if call.Common().StaticCallee() == getRow {
-				oldAlloc = call.Common().Args[3]
+				for _, a := range call.Common().Args { // the **Row out-parameter
+					if pt, ok := a.Type().(*types.Pointer); ok {
+						if pt2, ok := pt.Elem().(*types.Pointer); ok {
+							if nt := an.NamedOf(pt2); nt != nil && nt.Obj().Name() == "Row" {
+								oldAlloc = a
+							}
+						}
+					}
+				}
 			}
 		}
 		for _, call := range an.Calls(fn) {
@@ -460,7 +469,16 @@ func c02DecideByTime(c *Ctx) {
 		return false
 	}
 	n := 0
-	for _, b := range fn.Blocks {
+	msc := c.Scope(fn)
+	inScope := func(call *ssa.Call) bool {
+		cal := call.Call.StaticCallee()
+		return cal != nil && msc.Contains(cal) // a helper split out of MergeRows: its own decisions are checked below
+	}
+	var blocks []*ssa.BasicBlock
+	for _, f := range msc.Funcs {
+		blocks = append(blocks, f.Blocks...)
+	}
+	for _, b := range blocks {
 		iff, ok := b.Instrs[len(b.Instrs)-1].(*ssa.If)
 		if !ok {
 			continue
@@ -478,7 +496,7 @@ func c02DecideByTime(c *Ctx) {
 		an.DependsOn(iff.Cond, func(v ssa.Value) bool {
 			switch x := v.(type) {
 			case *ssa.Call:
-				if !allowedCallee(x) {
+				if !allowedCallee(x) && !inScope(x) {
 					offending = "call of " + calleeLabel(x)
 					return true
 				}
